@@ -290,6 +290,12 @@ impl ArrD {
     pub fn index_axis(&self, ax: Axis, i: usize) -> (r: Lanes)
         requires ax.0 == 0, i < self.rows@.len()
         ensures r@ == self.rows@[i as int] { unimplemented!() }
+    /// mutable lane bundle of row i: writes through the returned view land in row i and nowhere else
+    #[verifier::external_body]
+    pub fn index_axis_mut(&mut self, ax: Axis, i: usize) -> (r: &mut Lanes)
+        requires ax.0 == 0, i < old(self).rows@.len()
+        ensures r@ == old(self).rows@[i as int], final(self).rows@ == old(self).rows@.update(i as int, final(r)@), final(self).dims == old(self).dims
+    { unimplemented!() }
 }
 
 /// n-D data interpolated along axes 0 and 1: rows x cols x lanes  (2-D interpolation)
